@@ -69,6 +69,17 @@ pub mod verif {
     pub use super::identify_schema::Identify as SchemaIdentify;
     /// Maximum identify payload size as compiled.
     pub const VERIF_IDENTIFY_PAYLOAD_SIZE: usize = super::IDENTIFY_PAYLOAD_SIZE;
+
+    /// The identify event loop (`Identify::new(service, config).run()`) on a service that the
+    /// external harness feeds; `public` stands for the key `Litep2p` fills in.
+    pub fn verif_identify_task(
+        service: crate::protocol::TransportService,
+        mut config: super::Config,
+        public: crate::crypto::PublicKey,
+    ) -> futures::future::BoxFuture<'static, ()> {
+        config.public = Some(public);
+        Box::pin(super::Identify::new(service, config).run())
+    }
 }
 
 /// Identify configuration.
